@@ -4,6 +4,7 @@ import (
 	"runtime"
 	"sync"
 	"sync/atomic"
+	"syscall"
 	"time"
 )
 
@@ -15,8 +16,8 @@ import (
 // a reader that knows its caller (Own) recognises a Read that arrives on another goroutine and treats it as a read
 // of a slow source whose delivery time the simulator picks:
 //
-//   - while the call is still running, the read is held back for a grace period; if the call has not returned by
-//     then it evidently waits for the data, and the read is served (nothing else can make progress);
+//   - while the call is still running, the read is held back until the caller's goroutine is parked (the state is read
+//     from the runtime): it then evidently waits for the data, and the read is served (nothing else can make progress);
 //   - once the call has returned (it was abandoned: error, panic, early exit), the read is parked. It is served
 //     later, right after the LateK-th following Read of any owned reader has completed - that is, in the middle of
 //     a later call, which is when a real slow source would deliver - and the serving Read waits until the late
@@ -35,15 +36,13 @@ var (
 	LateReads    int64
 )
 
-const foreignGrace = 20 * time.Millisecond
-
 type lateRead struct {
 	release chan struct{}
 	done    chan struct{}
 	seen    int
 }
 
-func goid() int64 {
+func slowGoid() int64 {
 	var b [32]byte
 	n := runtime.Stack(b[:], false)
 	// "goroutine 123 ["
@@ -56,7 +55,8 @@ func goid() int64 {
 
 // Own ties the reader to the calling goroutine: the call it is handed to runs here.
 func (r *SimReader) Own() {
-	r.owner = goid()
+	r.ownerG = ThisG()
+	r.owner = r.ownerG.id
 	r.opDone = make(chan struct{})
 }
 
@@ -72,7 +72,7 @@ func (r *SimReader) Done() {
 }
 
 func (r *SimReader) foreignRead(p []byte) (n int, err error) {
-	foreignIO(r.opDone, func() {
+	foreignIO(r.ownerG, r.opDone, func() {
 		r.mu.Lock()
 		n, err = r.read(p, true)
 		r.mu.Unlock()
@@ -82,7 +82,8 @@ func (r *SimReader) foreignRead(p []byte) (n int, err error) {
 
 // Own, Done and foreign Write calls of a writer: as for the reader (a background flush instead of a read-ahead).
 func (w *SimWriter) Own() {
-	w.owner = goid()
+	w.ownerG = ThisG()
+	w.owner = w.ownerG.id
 	w.opDone = make(chan struct{})
 }
 
@@ -97,7 +98,7 @@ func (w *SimWriter) Done() {
 }
 
 func (w *SimWriter) foreignWrite(p []byte) (n int, err error) {
-	foreignIO(w.opDone, func() {
+	foreignIO(w.ownerG, w.opDone, func() {
 		w.mu.Lock()
 		n, err = w.write(p)
 		w.mu.Unlock()
@@ -112,16 +113,39 @@ func (w *SimWriter) NCalls() int {
 	return len(w.Calls)
 }
 
-func foreignIO(opDone chan struct{}, do func()) {
+func foreignIO(h GHandle, opDone chan struct{}, do func()) {
+	owner := h.id
 	atomic.AddInt64(&ForeignReads, 1)
-	tm := time.NewTimer(foreignGrace)
-	defer tm.Stop()
-	select {
-	case <-opDone:
-	case <-tm.C:
-		do()
-		afterRead()
-		return
+	// While the call is running the read is held back until the caller's goroutine is parked (it waits for this
+	// data, or for something that needs it: nothing else can make progress) - a state it cannot leave by itself, read
+	// from the runtime, so that no clock is involved; if the call returns first, the read was abandoned.
+	var stackBuf []byte
+	served := false
+	for spins := 0; !served; spins++ {
+		select {
+		case <-opDone:
+			served = true
+			continue
+		default:
+		}
+		st := "running"
+		if h.Parked() {
+			st = "waiting"
+		} else if !h.NotParked() {
+			st, stackBuf = goroutineState(owner, stackBuf)
+		}
+		if st != "running" && st != "runnable" && st != "syscall" && st != "" {
+			do()
+			afterRead()
+			return
+		}
+		runtime.Gosched()
+		if spins > 2 {
+			syscall.Syscall(syscall.SYS_SCHED_YIELD, 0, 0, 0)
+		}
+		if spins > 50000 {
+			time.Sleep(50 * time.Microsecond)
+		}
 	}
 	lr := &lateRead{release: make(chan struct{}), done: make(chan struct{})}
 	foreignMu.Lock()
